@@ -8,11 +8,11 @@ Local Open Scope string_scope.
         from the sources on every run, `for` loops cross-checked against the compiler's types through clippy) are
         exactly the reviewed ones, each with the way its order is neutralised ---- *)
 Definition reviewed : list (string * string * string * string * string) := [
-  ("ast/src/ast_expressions.rs", "fmt", "for:scopes", "ordered",
+  ("ast/src/ast_expressions.rs", "fmt", "for:scopes", "ordered @4412fe0ed3",
      "not-hash: a slice of identifiers");
-  ("ast/src/ast_expressions.rs", "fmt", "for:scopes", "ordered",
+  ("ast/src/ast_expressions.rs", "fmt", "for:scopes", "ordered @9248ae7cb5",
      "not-hash: a slice of identifiers");
-  ("formatter/src/formatter.rs", "format_scoped_identifier", "for:scopes", "ordered",
+  ("formatter/src/formatter.rs", "format_scoped_identifier", "for:scopes", "ordered @b8a41e9f42",
      "not-hash: a slice of identifiers");
   ("ir/src/ir_module.rs", "assign_api_bindings", "for:inline_size", "sorted inline_constant_buffers.sort()",
      "sorted: C07_pair_sort (inline_constant_buffers.sort())");
@@ -28,7 +28,7 @@ Definition reviewed : list (string * string * string * string * string) := [
      "set: the loop body only inserts namespace ids into the HashSet used_namespaces (a namespace and its parents when a non-namespace symbol lives in it); the early `break` only skips parents that are already in the set");
   ("ir/src/name_generator.rs", "build", "for:&name_map.names", "into-set",
      "set: the loop body only inserts the name into the HashSet of its namespace (namespace_names), read by membership tests alone");
-  ("ir/src/usage_analysis.rs", "recurse", "self.0.keys(", "collected-unsorted",
+  ("ir/src/usage_analysis.rs", "recurse", "self.0.keys(", "collected-unsorted @f19a2586da",
      "fixpoint: C07_usage_fixpoint");
   ("ir/src/usage_analysis.rs", "recurse", "for:&current_set.required", "into-set",
      "set: elements only go into another set");
@@ -36,7 +36,7 @@ Definition reviewed : list (string * string * string * string * string) := [
      "set: elements only go into another set");
   ("msl/src/generator.rs", "analyse_globals", "for:global_usage.get_usage_for_function(id)", "sorted required_globals.sort()",
      "sorted: C07_sort (required_globals.sort(), derived total order)");
-  ("msl/src/generator.rs", "generate_function_inner", "for:&decl.scope_block.0", "collected-unsorted",
+  ("msl/src/generator.rs", "generate_function_inner", "for:&decl.scope_block.0", "collected-unsorted @20e5a43dc2",
      "not-hash: the statements of a block");
   ("msl/src/generator.rs", "metal_lib_identifier_complex", "arg:names", "into-set",
      "not-hash: a slice of names");
@@ -48,13 +48,13 @@ Definition reviewed : list (string * string * string * string * string) := [
      "not-hash: BindingLayout / ArgumentBuffer wrap a Vec");
   ("msl/src/generator/pipeline.rs", "generate_pipeline", "for:&mutargument_buffer.0", "reduce",
      "not-hash: BindingLayout / ArgumentBuffer wrap a Vec");
-  ("msl/src/generator/pipeline.rs", "generate_pipeline", "&mutbinding_layout.0.iter(", "ordered",
+  ("msl/src/generator/pipeline.rs", "generate_pipeline", "&mutbinding_layout.0.iter(", "ordered @0171f84691",
      "not-hash: BindingLayout / ArgumentBuffer wrap a Vec");
   ("msl/src/generator/pipeline.rs", "generate_pipeline", "for:&argument_buffer.0", "into-set",
      "not-hash: BindingLayout / ArgumentBuffer wrap a Vec");
-  ("msl/src/generator/pipeline.rs", "generate_pipeline", "binding_layout.0.iter_mut(", "ordered",
+  ("msl/src/generator/pipeline.rs", "generate_pipeline", "binding_layout.0.iter_mut(", "ordered @0171f84691",
      "not-hash: BindingLayout / ArgumentBuffer wrap a Vec");
-  ("msl/src/generator/pipeline.rs", "generate_pipeline", "for:&argument_buffer.0", "collected-unsorted",
+  ("msl/src/generator/pipeline.rs", "generate_pipeline", "for:&argument_buffer.0", "collected-unsorted @0171f84691",
      "not-hash: BindingLayout / ArgumentBuffer wrap a Vec");
   ("parser/src/parser/expressions.rs", "parse_expression_resolve_symbols", "for:symbols", "into-set",
      "not-hash: a Vec");
@@ -62,27 +62,27 @@ Definition reviewed : list (string * string * string * string * string) := [
      "not-hash: a Vec");
   ("typer/src/typer/scopes.rs", "ensure_struct_template", "ast.template_params.0.iter(", "reduce",
      "not-hash: a Vec of template parameters");
-  ("typer/src/typer/scopes.rs", "walk_into_scopes", "for:names", "ordered",
+  ("typer/src/typer/scopes.rs", "walk_into_scopes", "for:names", "ordered @3ea1a0e416",
      "not-hash: a slice / the Vec stored under one name");
-  ("typer/src/typer/scopes.rs", "walk_into_scopes", "for:symbols", "ordered",
+  ("typer/src/typer/scopes.rs", "walk_into_scopes", "for:symbols", "ordered @3ea1a0e416",
      "not-hash: a slice / the Vec stored under one name");
-  ("typer/src/typer/scopes.rs", "end_enum", "for:enum_symbols", "collected-unsorted",
+  ("typer/src/typer/scopes.rs", "end_enum", "for:enum_symbols", "collected-unsorted @15c4f50eca",
      "commutative: min/max and independent per-value updates");
-  ("typer/src/typer/scopes.rs", "end_enum", "for:symbols", "ordered",
+  ("typer/src/typer/scopes.rs", "end_enum", "for:symbols", "ordered @15c4f50eca",
      "not-hash: the Vec stored under one name");
-  ("typer/src/typer/scopes.rs", "find_identifier_in_scope", "for:symbols", "collected-unsorted",
+  ("typer/src/typer/scopes.rs", "find_identifier_in_scope", "for:symbols", "collected-unsorted @a8b86716b1",
      "not-hash: the Vec stored under one name");
-  ("typer/src/typer/scopes.rs", "find_identifier_in_scope", "for:symbols", "ordered",
+  ("typer/src/typer/scopes.rs", "find_identifier_in_scope", "for:symbols", "ordered @a8b86716b1",
      "not-hash: the Vec stored under one name");
-  ("typer/src/typer/scopes.rs", "build_function_template_signature", "self.scopes[old_scope_id].symbols.values(", "ordered",
+  ("typer/src/typer/scopes.rs", "build_function_template_signature", "self.scopes[old_scope_id].symbols.values(", "ordered @68eadfb9e6",
      "commutative: assertions only");
   ("typer/src/typer/scopes.rs", "build_function_template_signature", "for:symbols", "assert-only",
      "not-hash: the Vec stored under one name");
-  ("typer/src/typer/scopes.rs", "build_function_template_signature", "for:&self.scopes[old_scope_id].symbols", "collected-unsorted",
+  ("typer/src/typer/scopes.rs", "build_function_template_signature", "for:&self.scopes[old_scope_id].symbols", "collected-unsorted @68eadfb9e6",
      "set: distinct names inserted into a map");
-  ("typer/src/typer/scopes.rs", "build_function_template_signature", "for:symbols", "collected-unsorted",
+  ("typer/src/typer/scopes.rs", "build_function_template_signature", "for:symbols", "collected-unsorted @68eadfb9e6",
      "not-hash: the Vec stored under one name");
-  ("typer/src/typer/scopes.rs", "extract_locals", "self.variables.iter(", "collected-unsorted",
+  ("typer/src/typer/scopes.rs", "extract_locals", "self.variables.iter(", "collected-unsorted @049e420d14",
      "unobserved: ScopedDeclarations.variables is only filtered, never read for output")].
 
 Theorem C07_inventory :
@@ -91,7 +91,7 @@ Theorem C07_inventory :
   forallb (fun r : string * string * string * string * string => let '(_, _, _, c, v) := r in
              negb (String.prefix "UNREVIEWED" v) &&
              (* a walk whose elements are collected in order and not sorted must be reviewed as not reaching the output *)
-             (if String.eqb c "ordered" || String.eqb c "collected-unsorted"
+             (if String.prefix "ordered" c || String.prefix "collected-unsorted" c
               then String.prefix "not-hash" v || String.prefix "fixpoint" v || String.prefix "commutative" v
                    || String.prefix "set" v || String.prefix "unobserved" v
               else true)) reviewed = true.
